@@ -288,6 +288,14 @@ func (cs *c13Case) run() (obs, oracle string) {
 		var fobs string
 		fobs, ffails := cs.runFollowGuarded(conn, client, expVer, len(written))
 		fails = append(fails, ffails...)
+		if cs.expectOK && len(ffails) == 0 && !client.IsClosed() && (cs.follow.kind == "none" || strings.Contains(fobs, " ok ")) {
+			// a second request on the same client: an INSERT whose table header (a zero-row Data block) the server
+			// sends at the negotiated revision - block info, temp-table name and the per-column custom-serialization flag
+			// each exist from their own revision on.  Not modelled here (blocks are C01/C03's subject): direct oracle
+			if msg := c13Insert(conn, client, expVer); msg != "" {
+				fail("%s", msg)
+			}
+		}
 		obs = fmt.Sprintf("connected %s %s %s %s", c13HelloSx(info), hx(written), bsym(closes > 0), fobs)
 		if !cs.expectOK && !cs.noOracle {
 			fail("a handshake answered by %s yielded a usable client", cs.kind)
@@ -353,6 +361,44 @@ func c13Clean(s string) string {
 		return b.String()[:900] + "..."
 	}
 	return b.String()
+}
+
+// c13Insert: INSERT with one input column; the scripted server answers with the table header and, after the data, with
+// EndOfStream, everything encoded for revision ver by the library's own encoders.
+func c13Insert(conn *c13Conn, client *ch.Client, ver int) (msg string) {
+	defer func() {
+		if p := recover(); p != nil {
+			msg = fmt.Sprintf("INSERT after the handshake at revision %d panicked: %v", ver, p)
+		}
+	}()
+	var fed proto.Buffer
+	proto.ServerCodeData.Encode(&fed)
+	if proto.FeatureTempTables.In(ver) {
+		fed.PutString("")
+	}
+	hdr := proto.Block{Info: proto.BlockInfo{BucketNum: -1}, Columns: 1, Rows: 0}
+	if err := hdr.EncodeBlock(&fed, ver, []proto.InputColumn{{Name: "v", Data: new(proto.ColUInt8)}}); err != nil {
+		return ""
+	}
+	proto.ServerCodeEndOfStream.Encode(&fed)
+	conn.Feed(fed.Buf)
+	var v proto.ColUInt8
+	v.Append(7)
+	v.Append(9)
+	ctx, cancel := context.WithTimeout(context.Background(), 3*time.Second)
+	defer cancel()
+	done := make(chan error, 1)
+	go func() { done <- client.Do(ctx, ch.Query{Body: "INSERT INTO t VALUES", Input: proto.Input{{Name: "v", Data: &v}}}) }()
+	select {
+	case err := <-done:
+		if err != nil {
+			return fmt.Sprintf("an INSERT after the handshake, answered at the negotiated revision %d, failed: %v", ver, err)
+		}
+	case <-time.After(5 * time.Second):
+		_ = conn.Close()
+		return fmt.Sprintf("an INSERT after the handshake at revision %d did not return", ver)
+	}
+	return ""
 }
 
 // runFollowGuarded: an operation after the handshake that neither succeeds nor fails (a client
